@@ -71,7 +71,7 @@ PROPS = {
         "not_decided": ["serde_bare/serde_json round trips of Signature (derive expansion, L-SERDE)"],
     },
     "C02": {
-        "units": [gen("C02"), {"name": "IMPL", "backend": "verus", "props": ["C01_impl.rs"], "tags": ["C02"], "specs": "contracts_impl", "prelude": "impl"}],
+        "units": [gen("C02"), {"name": "IMPL", "backend": "verus", "props": ["C01_impl.rs", "C02_impl.rs"], "tags": ["C02"], "specs": "contracts_impl", "prelude": "impl"}],
         "trusted_base": TB_ALGEBRA,
         "hypotheses": [X_NONID, "X-INJ / X-DSEP (explicit hypotheses of the lemmas): the hash point of another message or under another tag differs"],
         "not_decided": ["re-randomised projective representations (equal as group elements: the contracts speak about group elements, A-GROUP)"],
@@ -156,7 +156,7 @@ PROPS = {
         "not_decided": ["the guards of an honest proof (ciphertext components, responses and challenge non-zero) hold except with negligible probability: explicit hypothesis of c14_honest_proof_verifies", "that t of n scalar shares recombine to the key (L-LAGRANGE, vsss-rs) is a hypothesis of c14_key_from_shares_decrypts"],
     },
     "C15": {
-        "units": [LEAF_FUNCTIONAL_BOTH, gen("C15", props=["lib_bytes.rs", "C15.rs"])],
+        "units": [LEAF_FUNCTIONAL_BOTH, dict(gen("C15", props=["lib_bytes.rs", "C15.rs"]), text_forms="round_trip")],
         "trusted_base": TB_ALGEBRA + ["A-ENC / scalar_le: to_repr/from_repr are inverse on canonical encodings; the all-zero encoding is exactly the zero scalar",
                                       "L-SERDE: serde derive expansions, serde_bare, serde_json, hex and the curve crates' (de)serializers are NOT verified"],
         "hypotheses": [],
@@ -178,7 +178,7 @@ PROPS = {
         "not_decided": ["serde-derived decoders (serde_bare / serde_json) and the curve crates' own parsers", "termination of the two probabilistic retry loops (zero scalar re-draw)"],
     },
     "C18": {
-        "units": [dict(gen("C18"), layout_pins=True),
+        "units": [dict(gen("C18"), layout_pins=True, text_forms="pinned"),
                   {"name": "IMPL", "backend": "verus", "props": ["C18_impl.rs"], "tags": ["C18"], "specs": "contracts_impl", "prelude": "impl"}],
         "level_text": "Deductive proof (Verus) that every producer and consumer of blsful's own wire formats implements the PINNED reference constructions (spec functions frozen from the pinned release: framing, masks, hash inputs, transcript labels and order, salts, tags, KeyGen parameters, curve tag bytes), plus a syntactic pin of the field / variant order of every serialized data type. Decoding a golden corpus with real curve arithmetic is execution, not deduction, and is not part of this check.",
         "trusted_base": TB_ALGEBRA + ["H-*: the hash / XOF / HKDF / transcript primitives are uninterpreted functions of their exact inputs", "L-SERDE: the serde_bare layout is determined by field and variant order (pinned syntactically) — the derive expansions themselves are not verified"],
